@@ -16,7 +16,7 @@ from harness.common import cps, uncps
 from harness.props.c01 import all_texts
 from harness.props import c03, c19
 
-BRIDGE = ('Gemato.Bridge.Cli',)
+BRIDGE = ('Gemato.Bridge.Cli', 'Gemato.Bridge.SrcCli', 'Gemato.Bridge.SrcText', 'Gemato.Bridge.SrcVerify', 'Gemato.Bridge.SrcLoader', 'Gemato.Bridge.SrcWalk', 'Gemato.Bridge.SrcUpdate')
 PROPS = ['Gemato.Props.C18']
 PROFILES = ['default', 'ebuild', 'old-ebuild']
 ERRNO_NAMES = {errno.ENOENT: 'ENOENT', errno.ENOTDIR: 'ENOTDIR', errno.EISDIR: 'EISDIR'}
